@@ -1,0 +1,202 @@
+//go:build verif
+
+/*
+SPDX-License-Identifier: Apache-2.0
+*/
+
+package presentproof
+
+import (
+	"github.com/hyperledger/aries-framework-go/pkg/didcomm/common/service"
+)
+
+// VerifTarget is one row of the message type -> state map (nextState).
+type VerifTarget struct {
+	Msg      string
+	V3       bool
+	Outbound bool
+	State    string
+	Err      bool
+}
+
+// VerifExec is one row of the follow-up table: what Execute of a state returns.
+type VerifExec struct {
+	State   string
+	V3      bool
+	Inbound bool
+	Opt     string
+	Flag    bool
+	Next    string
+	Err     bool
+}
+
+// VerifTables is the protocol's state machine as the code defines it, obtained by executing it.
+type VerifTables struct {
+	States  []string
+	Can     [][2]string
+	Targets []VerifTarget
+	Actions []VerifTarget
+	Exec    []VerifExec
+}
+
+// VerifMsgTypes maps a short message name to the (V2, V3) message types.
+func VerifMsgTypes() map[string][2]string {
+	return map[string][2]string{
+		"propose":        {ProposePresentationMsgTypeV2, ProposePresentationMsgTypeV3},
+		"request":        {RequestPresentationMsgTypeV2, RequestPresentationMsgTypeV3},
+		"presentation":   {PresentationMsgTypeV2, PresentationMsgTypeV3},
+		"ack":            {AckMsgTypeV2, AckMsgTypeV3},
+		"problem-report": {ProblemReportMsgTypeV2, ProblemReportMsgTypeV3},
+	}
+}
+
+// verifMsg builds a stub message; flag is the request's will_confirm.
+func verifMsg(t string, v3, flag bool) service.DIDCommMsgMap {
+	if v3 {
+		return service.DIDCommMsgMap{"id": "verif-id", "type": t, "body": map[string]interface{}{"will_confirm": flag}}
+	}
+
+	return service.DIDCommMsgMap{"@id": "verif-id", "@type": t, "will_confirm": flag}
+}
+
+// VerifOpts are the option kinds the follow-up table is enumerated over.
+func VerifOpts() []string { return []string{"none", "propose", "request", "presentation"} }
+
+func verifApplyOpt(md *metaData, opt string, v3 bool) {
+	switch opt {
+	case "propose":
+		if v3 {
+			md.proposePresentationV3 = &ProposePresentationV3{}
+		} else {
+			md.proposePresentation = &ProposePresentationV2{}
+		}
+	case "request":
+		if v3 {
+			md.requestV3 = &RequestPresentationV3{}
+		} else {
+			md.request = &RequestPresentationV2{}
+		}
+	case "presentation":
+		if v3 {
+			md.presentationV3 = &PresentationV3{}
+		} else {
+			md.presentation = &PresentationV2{}
+		}
+	}
+}
+
+// VerifGraph enumerates the state machine by calling the package's own functions.
+func VerifGraph() *VerifTables {
+	names := []string{
+		stateNameStart, StateNameAbandoned, StateNameDone,
+		stateNameRequestSent, stateNamePresentationReceived, stateNameProposalReceived,
+		stateNameRequestReceived, stateNamePresentationSent, stateNameProposalSent,
+	}
+	t := &VerifTables{States: names}
+	all := append([]string{}, names...)
+	all = append(all, stateNameNoop)
+
+	for _, v := range []string{SpecV2, SpecV3} {
+		for _, a := range all {
+			for _, b := range all {
+				if stateFromName(a, v).CanTransitionTo(stateFromName(b, v)) {
+					e := [2]string{a, b}
+					dup := false
+
+					for _, x := range t.Can {
+						dup = dup || x == e
+					}
+
+					if !dup {
+						t.Can = append(t.Can, e)
+					}
+				}
+			}
+		}
+	}
+
+	short := []string{"propose", "request", "presentation", "ack", "problem-report"}
+	types := VerifMsgTypes()
+
+	for _, m := range short {
+		for vi, v3 := range []bool{false, true} {
+			msg := verifMsg(types[m][vi], v3, false)
+
+			for _, out := range []bool{false, true} {
+				dir := inboundMessage
+				if out {
+					dir = outboundMessage
+				}
+
+				st, err := nextState(msg, dir)
+				row := VerifTarget{Msg: m, V3: v3, Outbound: out, Err: err != nil}
+
+				if err == nil {
+					row.State = st.Name()
+				}
+
+				t.Targets = append(t.Targets, row)
+			}
+
+			if canTriggerActionEvents(msg) {
+				t.Actions = append(t.Actions, VerifTarget{Msg: m, V3: v3})
+			}
+		}
+	}
+
+	for _, name := range names {
+		for vi, v3 := range []bool{false, true} {
+			v := []string{SpecV2, SpecV3}[vi]
+
+			for _, inbound := range []bool{true, false} {
+				for _, opt := range VerifOpts() {
+					for _, flag := range []bool{false, true} {
+						md := &metaData{}
+						md.Direction = outboundMessage
+
+						if inbound {
+							md.Direction = inboundMessage
+						}
+
+						// the only message whose content decides a follow-up is the request (will_confirm)
+						md.Msg = verifMsg(types["request"][vi], v3, flag)
+						md.msgClone = md.Msg
+						verifApplyOpt(md, opt, v3)
+
+						st := stateFromName(name, v)
+
+						switch x := st.(type) {
+						case *abandoned:
+							x.Code = codeInternalError
+						case *presentationSent:
+							// presentation-sent is only ever entered as the follow-up of request-received,
+							// which copies the request's will_confirm into it
+							x.WillConfirm = flag
+						}
+
+						next, _, err := st.Execute(md)
+
+						row := VerifExec{State: name, V3: v3, Inbound: inbound, Opt: opt, Flag: flag, Err: err != nil}
+						if err == nil {
+							row.Next = next.Name()
+						}
+
+						t.Exec = append(t.Exec, row)
+					}
+				}
+			}
+		}
+	}
+
+	return t
+}
+
+// VerifBarrier returns once the listener has finished every callback handed to it before
+// (the callbacks channel is unbuffered: the listener only receives when it is idle).
+func (s *Service) VerifBarrier() {
+	md := &metaData{state: &noOp{}}
+	md.PIID = "verif-barrier"
+	md.Msg = verifMsg(AckMsgTypeV2, false, false)
+	md.msgClone = md.Msg
+	s.callbacks <- md
+}
